@@ -39,7 +39,11 @@ static void sortpairs(T* b, T* d, int k) {
 }
 extern "C" void harness() {
   T in[VP_N]; int n = vp_int("n", 1, VP_N);
+#ifdef VP_GRIDV   /* values as guarded finite-grid doubles (compare/copy only in this routine): same value set 0..VP_N, much cheaper queries */
+  for (int i = 0; i < VP_N; i++) in[i] = i < n ? (T)vp_double_grid("f", 0.0, 1.0, VP_N + 1) : (T)0;
+#else
   for (int i = 0; i < VP_N; i++) in[i] = i < n ? (T)vp_int("f", 0, VP_N) : (T)0;
+#endif
   T ob[VP_N + 2], od[VP_N + 2], rb[VP_N], rd[VP_N], gmin; int k = 0; bool overflow = false;
   Span s{in, in + n};
 #ifdef VP_GREATER
